@@ -299,6 +299,17 @@ impl Walrus {
                         let mut info = info_arc.write().map_err(|_| {
                             io::Error::new(io::ErrorKind::Other, "col info write lock poisoned")
                         })?;
+                        // The column lock was released while the entry was read. If another
+                        // consumer advanced the tail position meanwhile, or the writer sealed
+                        // this block into the chain, committing would deliver the entry twice
+                        // (or move the cursor backwards): start over from the current state.
+                        if checkpoint
+                            && ((info.tail_block_id, info.tail_offset) != tail_snapshot
+                                || info.cur_block_idx < info.chain.len())
+                        {
+                            drop(info);
+                            continue;
+                        }
                         let mut maybe_persist = None;
                         if checkpoint {
                             info.tail_block_id = active_block.id;
